@@ -322,6 +322,12 @@ def pt3(ctx, R):
         R.undecided("common._path_components::doubled quote", pc.where(), "no statement that emits a literal quote into the name was recognised")
     for f, st, lit, guards in emit:
         cur, nxt = operands(guards)
+        if (cur is None or nxt is None) and any(find(g, ("method", nm_, W(), W(), W())) for g in guards for nm_ in ("find", "index", "partition", "search", "match")):
+            # the scanner locates quotes with str.find / a pattern instead of looking at each character: "the current character is a
+            # quote" is implicit in the position found, which the pair test of this rule does not model
+            R.unrecognised("common._path_components::doubled quote", f.where(st), "quotes are located with a search (%s), not by testing each character: the "
+                           "condition under which a quote is emitted into the name is not decided" % "; ".join(show(g) for g in guards)[:160])
+            continue
         if cur is None or nxt is None:
             R.violation("common._path_components::doubled quote", f.where(st), "a quote is emitted into the name without testing that both the current and the "
                         "next character are quotes (conditions: %s)" % "; ".join(show(g) for g in guards)[:200])
